@@ -30,7 +30,10 @@ CLAIMED = {
              "yielded item is judged against enumeration of all binary assignments. prod / abssum helpers are checked "
              "exhaustively for 1-4 operands. Systematic symmetric tie families (non-dyadic constants, both constraint "
              "orientations), models that keep being built after a first enumeration, and two enumerations consumed in "
-             "lock-step are included; a process abort inside the solver library is a verdict. Models aldy itself builds "
+             "lock-step are included; sums written with repeated entries and constants, a general integer variable, and "
+             "enumerations of 250-1700 co-optimal solutions (some with only 120-300 stack frames left: the recursion "
+             "limit is a resource of the environment) as well; a process abort inside the solver library is a verdict. "
+             "Models aldy itself builds "
              "are monitored at the seam. Fault points are enumerated completely per model; models are sampled.",
         note="Trusted: CBC's answer is only ever judged against the brute-force table (<= 8 base binaries); the "
              "generator-known closed form of the continuous part; tolerance 1e-4. 'Agrees with independent solvers' is "
@@ -48,7 +51,11 @@ CLAIMED.update({
              "incumbent, failed verification) is injected at every solve index (first 40), one per run. For every run the "
              "recorded returns of estimate_cn / estimate_major / solve_minor_model / estimate_minor are re-evaluated: "
              "carried-over scores (also the carry-over inside the minor stage), gap filter, one major call per structure, "
-             "order, chain consistency, and the error / output behaviour when a stage returns nothing.",
+             "order, chain consistency, and the error / output behaviour when a stage returns nothing. Every other plan "
+             "scripts the three model solvers instead (simulator-made well-formed candidates with plan-chosen scores: "
+             "exact ties, scores around the gap boundary, large scores with small differences, twins differing in their "
+             "novel variants, empty returns), half of the runs with report=True as the command line does; aldy's "
+             "estimate_* / genotype() code selects among them and is judged by the same oracle.",
         note="Trusted: the recording wrappers; the oracle is relative to the stage returns (their optimality is C02-C05). "
              "Boundary band 1e-4 around gap + precision. Fault points enumerated completely per workload, workloads sampled.",
         design="DESIGN.md section 4 (C10)",
@@ -61,7 +68,9 @@ CLAIMED.update({
              "faults in the writing segment after the dump was written; the exome / wxs / wes route on a database the "
              "shipped profile knows; one-process histories that reuse a debug name for the other genome build; samples with "
              "pseudogene-private deletions, neutral regions wider than the reads, down-sampled phase records; the shipped "
-             "NA10860 BAMs in the thorough tier. The replayed results, scores (1e-2) and output bytes must equal a "
+             "NA10860 BAMs in the thorough tier. Environment choices of the writing side: the archive's member order "
+             "(directory order), gene names that are prefixes of each other, an alignment header the build detection does "
+             "not recognise, uneven read qualities, ultra-deep samples (thorough). The replayed results, scores (1e-2) and output bytes must equal a "
              "fault-free direct run on the alignments. Sampling of worlds, parameters and faults.",
         note="Trusted: recording wrapper around aldy.__main__.genotype; canonical renderings. Torn archives are out of scope "
              "(statement is silent).",
@@ -70,9 +79,10 @@ CLAIMED.update({
     "C19": dict(
         category="fault_enumeration",
         technique="deterministic simulation: data-loss faults on the alignment stream (container writer and AlignmentFile seam) enumerated over loss kind x profile route x output format x single/multi-gene",
-        text="The full applicable grid (172 cells) of 12 loss kinds (gene locus, locus with a decoy contig in an unindexed "
-             "text SAM, a sliver of the locus, gene only, neutral region empty / nearly empty, empty file, depth just below "
-             "/ just above the configured minimum, read error at the k-th record, records dropped at the stream seam) x 4 "
+        text="The full applicable grid of 16 loss kinds (gene locus, locus with a decoy contig in an unindexed "
+             "text SAM, a sliver of the locus, gene only, neutral region empty / nearly empty, empty file, depth below "
+             "/ above the configured minimum by 10 % and by 0.003, the gene's chromosome missing from the header, locus "
+             "spanned only by reference skips, read error at the k-th record, records dropped at the stream seam) x 4 "
              "routes (profile YAML, BAM as profile, user-supplied structure, user-supplied structure through a debug archive "
              "written and replayed) x 4 output formats x single / multi-gene is walked, half of the plans after a warm-up "
              "history in the same process (healthy run with the same file name, or an exome-route run); worlds are sampled. "
@@ -89,7 +99,9 @@ CLAIMED.update({
              "1/0, native bool / int / float), a route out of seven, optionally an unknown name or a malformed value. "
              "The Profile object the run actually used is read at the stage seam (or the written YAML is parsed back in "
              "another process) and compared, value and type, with a reference table applying 'explicit beats options "
-             "section beats default'. Sampling over (route x parameter x spelling).",
+             "section beats default'. Histories: an earlier version of the same profile file loaded first, an earlier "
+             "`aldy profile` call in the same process, an options section together with a user-supplied structure, an "
+             "empty options section. Sampling over (route x parameter x spelling).",
         note="Trusted: the reference table (PARAMS in c18.py mirrors the documented attributes of aldy.profile.Profile). "
              "Ambiguous cases the statement does not settle are not generated.",
         design="DESIGN.md section 4 (C18)",
@@ -160,7 +172,9 @@ CLAIMED.update({
              "alleles; extra copies, whole-gene deletion, left / right fusion) and planted haplotype multisets are turned "
              "into exact-tiling reads (length 50-250, >= 20x per copy) and genotyped against a simulated two-copy "
              "reference profile. The adversary makes 'every best solution' range over the optimal faces of all three "
-             "stages. Sampling of (database x multiset x read layout x solver choice).",
+             "stages; in a third of the plans the realigner's query for one catalogued indel the sample does not carry "
+             "is made to fail (fault injection at the third-party boundary), and where the reads' tiling starts is chosen "
+             "so that reads end inside a catalogued site. Sampling of (database x multiset x read layout x solver choice).",
         note="Trusted: the read simulator and the sequence-level variant conventions in aldysim/world.py (self-validated "
              "against the loaded catalogue). Shipped genes are not simulated.",
         design="DESIGN.md section 4 (C01)",
